@@ -21,7 +21,7 @@ def short(msg, n=150):
     msg = msg.replace('|', '/')
     return (msg[:n] + '...') if len(msg) > n else msg
 
-mut = parse('/verif/mutants/results-mutants-final.txt')
+mut = parse('/verif/mutants/results-mutants-final2.txt')  # the sweep with the final machinery
 def merged(path):
     # within one file a later line for the same (patch, check) supersedes an earlier one
     rows = {}
@@ -47,7 +47,7 @@ for k, v in merged('/verif/mutants/results-seeded-round8.txt').items():
 
 out = []
 out.append("## Appendix D. Sensitivity results: own mutants and independently seeded changes\n")
-out.append("All runs below use the **quick** tier, `VERIF_SEED` unset (0), in an isolated scratch copy of `/repo` and of the harness (`mutants/sweep.sh`). `exit=1` means the check printed a `VIOLATION` line with a shrunk replay file; the time includes the incremental rebuild of the changed repository crates (10-40 s) and shrinking. The raw lines are in `mutants/results-mutants-final.txt` and `mutants/results-seeded-final.txt`.\n")
+out.append("All runs below use the **quick** tier, `VERIF_SEED` unset (0), in an isolated scratch copy of `/repo` and of the harness (`mutants/sweep.sh`). `exit=1` means the check printed a `VIOLATION` line with a shrunk replay file; the time includes the incremental rebuild of the changed repository crates (10-40 s) and shrinking. The raw lines are in `mutants/results-mutants-final2.txt` (own mutants, final machinery) and `mutants/results-seeded-*.txt`.\n")
 
 # ---- own mutants ------------------------------------------------------------------------------------
 out.append("### D.1 Own mutants (65 patch files, `mutants/catalogue-all.txt`)\n")
@@ -69,7 +69,7 @@ for line in open('/verif/mutants/catalogue-all.txt'):
     first = next((short(m) for c, rc, t, m in rs if rc == 1), '')
     out.append(f"| `{patch[:-5]}` | {', '.join(hit) or '-'} | {', '.join(miss + [i + ' (exit 2)' for i in infra]) or '-'} | {first} |")
 out.append("")
-out.append(f"{n_caught} of {n_mut} mutants are reported by at least one check. The ones that are not reported turned out not to violate the property they were written for: `c05-reserved-amount-0` makes every first provision fail (cw20-base refuses the zero mint), so no pair ever gets liquidity and C05 holds vacuously (none of the twenty properties demands that a first provision can succeed); `c11-compare-against-sender` only makes the router stricter (it measures the sender's growth, so routes with another recipient revert unless m = 0; C11 is an only-if statement) and `c13-intermediate-hop-carries-to` makes every multi-hop route revert (the second hop finds the router empty), so no accepted route misbehaves. Columns 'Not reported by' list checks of *other* properties that were run for observation; a mutant of the swap formula that pays less (`c01-offer-not-subtracted`) is, correctly, not a C01/C03 violation but a C06/C12 one.\n")
+out.append(f"{n_caught} of {n_mut} mutants are reported by at least one check. The ones that are not reported turned out not to violate the property they were written for: `c05-reserved-amount-0` makes every first provision fail (cw20-base refuses the zero mint), so no pair ever gets liquidity and C05 holds vacuously (none of the twenty properties demands that a first provision can succeed); `c13-intermediate-hop-carries-to` makes every multi-hop route revert (the second hop finds the router empty), so no accepted route misbehaves. (`c11-compare-against-sender` - the assertion measures the sender's growth - was long counted as equivalent because it only seemed to make the router stricter; since routes may name the router itself as recipient, C11 reports it: with m = 0 the route succeeds while the recipient's balance of the final asset falls.) Columns 'Not reported by' list checks of *other* properties that were run for observation; a mutant of the swap formula that pays less (`c01-offer-not-subtracted`) is, correctly, not a C01/C03 violation but a C06/C12 one.\n")
 out.append("Mutants that were first **missed** and led to a stronger generator or oracle (then re-run): `c14-ownership-compare-former-too` (the ownership-transfer message now varies its code-id fields), `c13-accept-two-dangling` (router worlds now donate to the router, so a disconnected hop can execute), `c13-last-hop-drops-recipient-on-long-routes` (written after `c13-intermediate-hop-carries-to` proved equivalent).\n")
 
 # ---- seeded -----------------------------------------------------------------------------------------
